@@ -79,6 +79,22 @@ class Prop(PropBase):
                 else:
                     lines.append("H %d %d %d" % (r.randrange(6), r.randrange(6), r.randrange(6)))
             sets.append(lines)
+        # one object's channel FAILS (write() throws, once) in the middle of an operation while other objects are alive on
+        # the same thread: every other object must be sent exactly what it is sent alone
+        for _ in range(n // 3 + 4):
+            def strings(k_):
+                ops = []
+                for _ in range(k_):
+                    es = [tg.element(r) for _ in range(r.choice([1, 2, 3, 6]))]
+                    ops.append(r.choice([tg.op_ws(es), tg.op_ws(es), tg.op_we(es[0]), "mv %d %d" % (r.randrange(5), r.randrange(3)), "er %d" % r.randrange(6)]))
+                return ops
+            before, after = strings(r.choice([0, 1, 2])), strings(r.choice([1, 2, 3]))
+            faulty = "T %d ; sz 9 4 ; %s" % (r.choice([0, 16]), " ; ".join(before + ["fw %d" % r.choice([0, 0, 1, 2, 5])] + after))
+            others = ["T %d ; sz 9 4 ; %s" % (r.choice([0, 16, 31]), " ; ".join(strings(r.choice([2, 3, 5])))) for _ in range(r.choice([1, 2, 3]))]
+            if r.random() < 0.3:
+                others.append(sg.frames(r, 2))
+            lines = others[:1] + [faulty] + others[1:]
+            sets.append(lines)
         # deterministic twin sets: two terminals that differ in unicode_in_all_charsets (and two that do not differ at all)
         # write the same elements in step - every character set, into UTF-8 and back, then US-ASCII
         for c1 in tg.CHARSETS:
@@ -121,7 +137,17 @@ class Prop(PropBase):
         out = []
         for s in Prop.object_sets(tier, rng):
             for l in s:
+                if " fw " in l:
+                    continue          # fault injection: what the failing terminal itself does is not modelled
                 out.append(Case(l, tag="solo-" + l[0], oracle=(l[0] == "C")))
+        # manipulator OBJECTS shared between terminals (a title or a cursor move kept in a variable and streamed to several
+        # terminals): what each terminal is sent must not depend on the object having been used on another terminal
+        for bits in ((4, 8, 8), (8, 4, 4), (12, 8, 4), (0, 4, 8), (1, 3, 2), (3, 1, 0), (16, 0, 16)):
+            for seq in (["ti 2 65 66"], ["ti 2 65 66", "ti 2 65 66"], ["me", "md"], ["sz 9 4", "mv 2 2", "we 5 65 0 0 0 1 0 0 0 9 0 0 1 24 27 25", "mv 3 2"],
+                        ["we 18 226 148 129 0 9 0 0 0 9 0 0 22 24 27 25", "we 5 66 0 0 0 9 0 0 0 9 0 0 22 24 27 25"]):
+                out.append(Case("M %d %d %d ; %s" % (bits + (" ; ".join(seq),)), sweep="shared-manipulator-objects", cfgs=tg.configs(rng, 1)))
+        for i in range(400 if tier == "quick" else 8000):
+            out.append(Case(tg.multi_history(rng, rng.choice([2, 3, 5, 8, 13, 21])), tag="shared-manipulator-objects", cfgs=tg.configs(rng, 1)))
         return out
 
     @staticmethod
@@ -136,7 +162,15 @@ class Prop(PropBase):
         nontrivial = set()
         env_tsan = dict(os.environ, TSAN_OPTIONS="halt_on_error=0:exitcode=66:report_signal_unsafe=0")
         for lines in sets:
-            rc, solo, err = build.run_lines(ctx["exe"], lines)
+            if any(" fw " in l for l in lines):
+                # a set with a failing channel: every object's solo answer comes from a process of its own
+                solo, rc, err = [], 0, ""
+                for l in lines:
+                    rc1, one, err1 = build.run_lines(ctx["exe"], [l])
+                    rc, err = rc or rc1, err + err1
+                    solo += one
+            else:
+                rc, solo, err = build.run_lines(ctx["exe"], lines)
             if rc != 0 or len(solo) != len(lines):
                 failures.append({"what": "solo executor run failed", "lines": lines, "stderr": err[-800:]})
                 continue
